@@ -37,7 +37,7 @@ func TestC01Select(t *testing.T) {
 			s := spec{DB: e1.Gen(t, e1.Opts{MaxTables: 2, Indexes: true, History: true, BigRows: vt.Pick(1500, 6000)})}
 			n := rapid.IntRange(0, 6).Draw(t, "npick")
 			for i := 0; i < n; i++ {
-				s.ColPick = append(s.ColPick, rapid.IntRange(0, 20).Draw(t, "pick"))
+				s.ColPick = append(s.ColPick, rapid.IntRange(0, 60).Draw(t, "pick"))
 			}
 			return s
 		},
@@ -102,7 +102,21 @@ func run(r *vt.Run, t vt.TB, s spec) {
 				pool = all
 			}
 			for _, p := range s.ColPick {
-				cols = append(cols, pool[p%len(pool)])
+				c := pool[p%len(pool)]
+				if (p/len(pool))%3 == 1 {
+					// identifiers are case-insensitive: ask in the other case
+					b := []byte(c)
+					for i, ch := range b {
+						switch {
+						case ch >= 'a' && ch <= 'z':
+							b[i] = ch - 'a' + 'A'
+						case ch >= 'A' && ch <= 'Z':
+							b[i] = ch - 'A' + 'a'
+						}
+					}
+					c = string(b)
+				}
+				cols = append(cols, c)
 			}
 		}
 		// does sqlittle interpret the definition?
@@ -111,6 +125,22 @@ func run(r *vt.Run, t vt.TB, s spec) {
 		selErr := db.Select(name, func(row sqlittle.Row) {
 			got = append(got, append([]interface{}{}, row...))
 		}, cols...)
+		// the same call again on the same handle (whatever the first one
+		// cached or left behind must not change the answer)
+		var again [][]interface{}
+		againErr := db.Select(name, func(row sqlittle.Row) {
+			again = append(again, append([]interface{}{}, row...))
+		}, cols...)
+		if (againErr == nil) != (selErr == nil) || len(again) != len(got) {
+			r.Violation(t, s, "second-select-differs", "table %q: Select(%v) gives %d rows, err %v; the same call again on the same handle %d rows, err %v", name, cols, len(got), selErr, len(again), againErr)
+			return
+		}
+		for i := range got {
+			if e1.ShowGot(got[i]) != e1.ShowGot(again[i]) {
+				r.Violation(t, s, "second-select-differs", "table %q: row %d of Select(%v) is %s, in the same call again on the same handle %s", name, i, cols, e1.ShowGot(got[i]), e1.ShowGot(again[i]))
+				return
+			}
+		}
 		kind := "rowid"
 		if cat.WithoutRowid {
 			kind = "without-rowid"
